@@ -1487,7 +1487,9 @@ impl<'a> World<'a> {
                 let gap = if first {
                     rng.below(1000)
                 } else if rng.chance(p.p_gap_600s, 1000) {
-                    match rng.below(4) {
+                    match rng.below(5) {
+                        // the boundary itself: exactly ten minutes is not "more than ten minutes"
+                        4 => *rng.pick(&[600 * SEC, 600 * SEC + 1, 600 * SEC - 1]),
                         0 => 600 * SEC + rng.range(0, 2 * MS) - MS,
                         1 => 600 * SEC + 1 + rng.below(SEC),
                         2 => 600 * SEC - rng.below(SEC),
@@ -1784,6 +1786,9 @@ pub fn run(src: &mut Source, profile: &Profile, opts: &RunOpts) -> RunResult {
         quiesce_from: None,
         probe_start_ns: None,
         truncated: false,
+        custom: vec![],
+        custom_log: vec![],
+        custom_sigs: vec![],
     };
     let mut w = World {
         cfg,
